@@ -7,6 +7,7 @@ generated `ComponentLimits.lean`) and, for isolation, about the component call o
 machine (`Model/SafeFlow.lean`).  The harness `harness/src/bin/c05.rs` ties them to the engine.
 -/
 import TeraModel.Lemmas.Component
+import TeraModel.Lemmas.SafeFlow
 namespace Tera.C05
 open Tera.Component
 
@@ -335,6 +336,19 @@ theorem C05_result_not_reescaped (env : Env) (ae : Bool) (params : List String) 
     rw [h, ← hlen, ← List.length_reverse]
     simpa using popN_append vals.reverse s
   simp [run, compCall, p, hd, step, sinkBytes, isSafe, fmtT]
+
+open Tera.SafeFlow in
+/-- **API = template call.**  `Tera::render_component(name, ctx, body, f)` runs the component's
+chunk, with the context `build_context` made, in a VM whose `autoescape_override` is `some f`; a
+call from a template runs the same chunk with the same context in a VM without override whose
+template flag decides.  If that flag is `f` (and so is the flag of every template the component
+includes, which the override would otherwise overrule) the two runs are the same run: same
+outcome, same text, same tags — for every chunk, context and escape function. -/
+theorem C05_api_equiv (escape : List Nat → List Nat) (f : Bool) (defn : Prog)
+    (hincl : defn.inclAll f = true) (ctx : List (String × TVal)) :
+    run { escape := escape, override := some f } f defn { vars := ctx }
+      = run { escape := escape, override := Option.none } f defn { vars := ctx } :=
+  run_override escape f defn hincl _
 
 /-! ## The hypotheses are satisfiable, and spot checks -/
 
